@@ -500,6 +500,10 @@ def run(ctx):
             return False
         return True
 
+    by_tag_first = {}
+    for i_, e_ in enumerate(corpus):
+        if e_["enc"] is not None:
+            by_tag_first.setdefault(e_["tag"], i_)
     # ---- sequential histories
     keep = []
     rounds = 3 if ctx.quick else 25
@@ -515,6 +519,28 @@ def run(ctx):
             prev = i
         if not check_digest(ctx, digest0, f"after permutation {r_}"):
             return
+    # every payload LENGTH 2..140 under every defined identity (header of the type, arbitrary body; most are refused):
+    # whatever special cases exist for particular sizes, they must leave tables and later parses alone
+    from pyrtcm import RTCMMessage as _RM
+
+    idents = [i for i in refmodel.identities() if refmodel.reachable(i)]
+    for k_, identity in enumerate(idents):
+        if not ctx.mine(k_):
+            continue
+        hdr = streams.header_bytes(4076, int(identity[5:])) if identity.startswith("4076") else streams.header_bytes(
+            int(identity))
+        for ln in range(len(hdr), 141):
+            body = bytes(rng.getrandbits(8) for _ in range(ln - len(hdr)))
+            try:
+                _RM(payload=hdr[:-1] + bytes([hdr[-1] | (body[0] & 1 if body else 0)]) + body[0:0] + body)
+            except Exception:
+                pass
+        ctx.hit("length_sweeps")
+        with_tag = by_tag_first.get(identity)
+        if with_tag is not None and not verify(with_tag, None, "after-length-sweep"):
+            return
+    if not check_digest(ctx, digest0, "after the length sweeps"):
+        return
     # targeted: target after k failing parses; MSM after MSM of another constellation; 4076_201 after 1302
     fails = [i for i, e in enumerate(corpus) if e["fails"]]
     msm = [i for i, e in enumerate(corpus) if refmodel.is_msm_identity(e["tag"])]
